@@ -89,14 +89,15 @@ def codecDecode : Extracted.WsgiSites.Codec → Bytes → Option Str
   | .utf8, b => utf8Decode b
   | .other _, _ => none
 
-/-- a `.decode()` site as the extractor read it: the codec, strictly (an `errors=` argument is not modelled), and - when the
-    call sits in `try: … except UnicodeDecodeError:` - a second attempt with the fall-back codec; `none` = the error escapes -/
+/-- a `.decode()` site as the extractor read it: the codec and - when the call sits in `try: … except UnicodeDecodeError:` - a
+    second attempt with the fall-back codec; `none` = the error escapes.  An `errors=` argument only matters for bytes the
+    codec cannot decode (it is irrelevant for latin-1, which decodes everything); what it does then is not modelled (`none`). -/
 def decodeWith (d : Extracted.WsgiSites.Decode) (b : Bytes) : Option Str :=
-  match d.errors with
-  | some _ => none
+  match codecDecode d.codec b with
+  | some s => some s
   | none =>
-    match codecDecode d.codec b with
-    | some s => some s
+    match d.errors with
+    | some _ => none
     | none =>
       match d.fallback with
       | some c => codecDecode c b
